@@ -4,10 +4,12 @@ import random
 from irc import Config, Trace
 
 NICKS = ["alice", "bob", "carol", "dave", "admin", "Alice", "éva", "x", "oper2"]
-CHANS = ["#a", "#b", "&loc", "#pre", "#sec", "#A", "#new"]
+CHANS = ["#a", "#b", "&loc", "#pre", "#sec", "#A", "#new", "#café"]
 KEYS = ["k1", "key", "a:b", "ké"]
 TEXTS = ["hi", "hello world", ":colon first", "a:b c", "  two  spaces ", "ünï cödé 漢", "", "x", "tab\there",
          "ends with colon:", "!@#$%^&*()"]
+# texts close to the input limit made of multi-byte characters (a relay adds the prefix and passes 2000 bytes)
+LONG_TEXTS = ["é" * 985, "x" + "é" * 985, "😀" * 492, "xx" + "😀" * 491, "y" * 1960]
 PASSWORDS = ["secret1", "topsecret", "operpass", "wrongpw"]
 
 
@@ -29,14 +31,18 @@ def rand_config(rng, profile=None):
     ops = []
     if rng.random() < profile.get("p_operators", 0.8):
         ops.append(dict(name="admin", password="operpass",
-                        mask=rng.choice([None, None, "*!*@127.0.0.1", "admin!*@*", "*!*@10.0.0.*", "alice!*@*"])))
+                        mask=rng.choice([None, None, "*!*@127.0.0.1", "admin!*@*", "*!*@10.0.0.*", "alice!*@*", "admin@127.0.0.1", "admin",
+                                         "admin!~admin", "adm?n!*@*"])))
         if rng.random() < 0.3:
             ops.append(dict(name="oper2", password="topsecret", mask=None))
     c.operators = ops
     users = []
     if rng.random() < profile.get("p_users", 0.3):
         users.append(dict(name="carol", nick="carol", password=rng.choice([None, "secret1"]),
-                          mask=rng.choice([None, None, "carol!*@*", "*!*@10.*", "*!~carol@127.0.0.1"])))
+                          mask=rng.choice([None, None, "carol!*@*", "*!*@10.*", "*!~carol@127.0.0.1", "carol", "carol@127.0.0.1"])))
+        if rng.random() < 0.4:
+            # a configured user whose user name is not its nick, without password: whoever gives this USER name is +r
+            users.append(dict(name="bobU", nick="bob", password=None, mask=None))
     c.users = users
     c.default_modes = "".join(ch for ch in "ioOrw" if rng.random() < profile.get("p_default_mode", 0.06))
     chans = []
@@ -99,6 +105,12 @@ class Gen:
     def mask(self):
         return rand_mask(self.rng, self.cur_nicks())
 
+    def with_repeat(self, items):
+        """now and then a name comes again after another name (a,b,a): the handlers judge every entry of a list"""
+        if len(items) >= 1 and self.rng.random() < 0.12:
+            items = list(items) + ([self.rng.choice(["nobody", "#none"])] if len(items) == 1 else []) + [items[0]]
+        return items
+
     def registered(self):
         return [c for c, v in self.conns.items() if v["reg"]]
 
@@ -123,6 +135,8 @@ class Gen:
             elif cfg.password:
                 pw = cfg.password
             uname = nick if (uc or self.rng.random() < 0.7) else nick + "U"
+            if not uc and cfg.password is None and any(u["name"] == "bobU" for u in cfg.users) and nick != "bob" and self.rng.random() < 0.25:
+                uname = "bobU"
             if pw is not None and self.rng.random() < 0.9:
                 self.t.line(cid, "PASS " + pw)
             if self.rng.random() < 0.2:
@@ -170,6 +184,13 @@ class Gen:
         return s + ("" if not args else " " + " ".join(args))
 
     def command(self, cid):
+        # a generated line always fits the input limit (1998 bytes before CR LF): a long text is cut to fit
+        ln = self.command_raw(cid)
+        while len(ln.encode("utf-8")) > 1996:
+            ln = ln[:-4]
+        return ln
+
+    def command_raw(self, cid):
         rng = self.rng
         w = self.profile.get("weights", {})
         verbs = ["JOIN", "PART", "PRIVMSG", "NOTICE", "MODE", "UMODE", "TOPIC", "KICK", "INVITE", "NICK", "NAMES", "WHO",
@@ -183,7 +204,8 @@ class Gen:
         c = self.conns[cid]
         if v == "JOIN":
             n = 1 if rng.random() < 0.75 else rng.randint(2, 3)
-            chs = [self.chan() for _ in range(n)]
+            chs = self.with_repeat([self.chan() for _ in range(n)])
+            n = len(chs)
             line = "JOIN " + ",".join(chs)
             if rng.random() < 0.3:
                 line += " " + ",".join(rng.choice(KEYS) for _ in range(n if rng.random() < 0.9 else n + 1))
@@ -192,6 +214,7 @@ class Gen:
         if v == "PART":
             chs = [rng.choice(sorted(c["chans"]) or CHANS) if rng.random() < 0.8 else self.chan()
                    for _ in range(1 if rng.random() < 0.8 else 2)]
+            chs = self.with_repeat(chs)
             return "PART " + ",".join(chs) + ("" if rng.random() < 0.6 else " :" + self.text())
         if v in ("PRIVMSG", "NOTICE"):
             ts = []
@@ -203,7 +226,7 @@ class Gen:
                     ts.append(self.some_nick())
                 else:
                     ts.append("".join(rng.sample("~&@%+", rng.randint(1, 3))) + self.chan())
-            return "%s %s :%s" % (v, ",".join(ts), self.text())
+            return "%s %s :%s" % (v, ",".join(self.with_repeat(ts)), self.text() if rng.random() < 0.97 else rng.choice(LONG_TEXTS))
         if v == "MODE":
             ch = rng.choice(sorted(c["chans"]) or CHANS) if rng.random() < 0.85 else self.chan()
             r = rng.random()
@@ -224,11 +247,11 @@ class Gen:
         if v == "TOPIC":
             ch = rng.choice(sorted(c["chans"]) or CHANS) if rng.random() < 0.85 else self.chan()
             r = rng.random()
-            return "TOPIC " + ch if r < 0.3 else "TOPIC %s :%s" % (ch, self.text())
+            return "TOPIC " + ch if r < 0.3 else "TOPIC %s :%s" % (ch, self.text() if r < 0.97 else rng.choice(LONG_TEXTS))
         if v == "KICK":
             ch = rng.choice(sorted(c["chans"]) or CHANS) if rng.random() < 0.85 else self.chan()
-            us = [self.some_nick() for _ in range(1 if rng.random() < 0.7 else rng.randint(2, 3))]
-            return "KICK %s %s" % (ch, ",".join(us)) + ("" if rng.random() < 0.5 else " :" + self.text())
+            us = self.with_repeat([self.some_nick() for _ in range(1 if rng.random() < 0.7 else rng.randint(2, 3))])
+            return "KICK %s %s" % (ch, ",".join(us)) + ("" if rng.random() < 0.5 else " :" + (self.text() if rng.random() < 0.97 else rng.choice(LONG_TEXTS)))
         if v == "INVITE":
             return "INVITE %s %s" % (self.some_nick(), self.chan())
         if v == "NICK":
@@ -237,19 +260,19 @@ class Gen:
                 c["nick"] = c["nick"]  # may or may not succeed; keep rough picture
             return "NICK " + (n if n and " " not in n else ":" + n)
         if v == "NAMES":
-            return "NAMES" if rng.random() < 0.4 else "NAMES " + ",".join(self.chan() for _ in range(rng.randint(1, 2)))
+            return "NAMES" if rng.random() < 0.4 else "NAMES " + ",".join(self.with_repeat([self.chan() for _ in range(rng.randint(1, 2))]))
         if v == "WHO":
             r = rng.random()
             return "WHO " + (self.chan() if r < 0.4 else self.some_nick() if r < 0.6 else
-                             rng.choice(["*", "a*", "*o*", "?ob", "*!*@127.*", "*aaaaaaaaaaaaaaaa", "Real*", "*é*"]))
+                             rng.choice(["*", "a*", "*o*", "?ob", "*!*@127.*", "*aaaaaaaaaaaaaaaa", "Real*", "*é*", "?va", "??a", self.mask(), self.mask()]))
         if v == "WHOIS":
             ms = [self.some_nick() if rng.random() < 0.7 else rng.choice(["*", "a*", "?ob", "*o*"])
                   for _ in range(1 if rng.random() < 0.7 else 2)]
-            return "WHOIS " + ("" if rng.random() < 0.9 else "irc.irc ") + ",".join(ms)
+            return "WHOIS " + ("" if rng.random() < 0.9 else "irc.irc ") + ",".join(self.with_repeat(ms))
         if v == "LIST":
             return "LIST" if rng.random() < 0.5 else "LIST " + ",".join(self.chan() for _ in range(rng.randint(1, 2)))
         if v == "AWAY":
-            return "AWAY" if rng.random() < 0.4 else "AWAY :" + self.text()
+            return "AWAY" if rng.random() < 0.4 else "AWAY :" + (self.text() if rng.random() < 0.97 else rng.choice(LONG_TEXTS))
         if v == "OPER":
             return "OPER %s %s" % (rng.choice(["admin", "admin", "oper2", "nobody"]),
                                    rng.choice(["operpass", "operpass", "topsecret", "wrongpw"]))
@@ -268,7 +291,7 @@ class Gen:
         if v == "QUIT":
             return "QUIT" + rng.choice(["", " :bye"])
         if v == "PING":
-            return rng.choice(["PING tok", "PING :a b", "PONG x", "PING"])
+            return rng.choice(["PING tok", "PING :a b", "PONG x", "PING", "PONG :", "PING :", "PONG :LALAL", "PONG"])
         if v == "DIE":
             return rng.choice(["DIE", "DIE :going down", "SQUIT irc.irc :bye", "SQUIT other.srv :x"])
         if v == "REG":
@@ -291,6 +314,7 @@ class Gen:
             "MODE #a -i+i", "MODE #a +l-l 5", "MODE #a +l 5 -l", "MODE #a +k-k key", "MODE #a +b", "MODE #a +bb x",
             "TOPIC #a :\x0cff", "PRIVMSG bob :a\rb", "\tJOIN #a", "JOIN\t#a", "PRIVMSG bob\t:tabbed",
             "WHO *aaaaaaaaaaaaaaaaaaaaaaaa", "WHO ?", "WHO é?", "MODE #a +b *b*", "A" * 600,
+            "PRIVMSG bob :" + "x" * 1984, "PRIVMSG bob :" + "x" * 1985, "PART #a,#a", "PART #a,#b,#a", "KICK #a bob,carol,bob", "MODE #a -b nobody!*@*", "MODE #a -I nobody!*@*",
         ])
 
     def step(self):
